@@ -61,8 +61,15 @@ TApplyTable == /\ Ev("ApplyTable")
                        /\ SumRows(R.t, buffer'[R.t]) = R.buffer
 TIngestAck == Ev("IngestAck") /\ IngestAck(C) /\ ((R.wal_size = 0) <=> (walAcct' = 0))
 
-TForceFlushCall == Ev("ForceFlushCall") /\ ForceFlushCall
-TFlushTrigger == Ev("FlushTrigger") /\ FlushTrigger /\ fl'.waiters = R.pending
+\* (the flush thread takes the list of waiting force_flush callers some instructions before the
+\* FlushTrigger event is emitted; callers that arrive in between stay pending.  Whether the size /
+\* file-count thresholds were exceeded is computed from unlocked reads and is not re-derived here)
+TForceFlushCall == /\ Ev("ForceFlushCall") /\ up /\ pendingFlush' = pendingFlush + 1
+                   /\ UNCHANGED <<up, tabs, buffer, frozen, parts, nextPid, nextOff, colNames, ms, walAcct, walLock, ing, fl, rec, qs, disk, histv>>
+TFlushTrigger == /\ Ev("FlushTrigger") /\ up /\ fl.pc = "idle" /\ R.pending <= pendingFlush
+                 /\ fl' = [IdleFl EXCEPT !.pc = "triggered", !.waiters = R.pending]
+                 /\ pendingFlush' = pendingFlush - R.pending
+                 /\ UNCHANGED <<up, tabs, buffer, frozen, parts, nextPid, nextOff, colNames, ms, walAcct, walLock, ing, rec, qs, disk, histv>>
 TFlushLock == /\ Ev("FlushLock") /\ FlushLock /\ fl'.lo = R.lo /\ fl'.hi = R.hi /\ fl'.tables = SeqSet(R.tables)
 TFreeze == Ev("Freeze") /\ FreezeTable(R.t) /\ SumRows(R.t, frozen'[R.t]) = R.len
 TFlushFreeze == Ev("FlushFreeze") /\ FlushFreeze
